@@ -19,6 +19,8 @@ import (
 	"net/http"
 	"strconv"
 	"strings"
+
+	"github.com/tmpim/casket/caskethttp/httpserver"
 )
 
 // ResponseFilter determines if the response should be gzipped.
@@ -78,6 +80,11 @@ func (r *ResponseFilterWriter) WriteHeader(code int) {
 		// The header is out and the decision has been made with it; a
 		// further call must not make another one (the body would change
 		// its coding half-way). Let the server report the surplus call.
+		r.gzipResponseWriter.ResponseWriterWrapper.WriteHeader(code)
+		return
+	}
+	if httpserver.IsInformational(code) {
+		// precedes the real header; the decision is made with that one
 		r.gzipResponseWriter.ResponseWriterWrapper.WriteHeader(code)
 		return
 	}
